@@ -213,6 +213,14 @@ func checkC15(run *rt.Run, r *frun) bool {
 	}
 	var rotatedTS []int64 // timestamps of rotated files in creation order
 	for i, st := range r.Steps {
+		if st.Op.Kind == "unformatted" {
+			// a rejected event is not a write: no file, no directory, no rotation, no counter moves
+			if st.Note != "" {
+				return bad("rejected-event-not-inert", fmt.Sprintf("step %d: %s", i, st.Note))
+			}
+			run.Add("rejected_events_inert", 1)
+			continue
+		}
 		// new files of this step
 		var created []finfo
 		for _, f := range st.Snap {
